@@ -9,7 +9,13 @@ import GS.OpsAmo
 import GS.OpsExplain
 import GS.OpsBfModel
 import GS.OpsChan
+import GS.OpsEnum
+import GS.OpsMaxSatSigned
+import GS.OpsBfUnique
+import GS.OpsFormats
+import GS.OpsSimplify
+import GS.OpsAnalyze
 /-! Union of all op tables (one per model file group). -/
 namespace GS.OpsAll
-def table : List (String × (List String → Option String)) := GS.Ops.table ++ GS.OpsBf.table ++ GS.OpsPb.table ++ GS.OpsConstr.table ++ GS.OpsCdcl.table ++ GS.OpsOptim.table ++ GS.OpsMaxSat.table ++ GS.OpsAmo.table ++ GS.OpsExplain.table ++ GS.OpsBfModel.table ++ GS.OpsChan.table
+def table : List (String × (List String → Option String)) := GS.Ops.table ++ GS.OpsBf.table ++ GS.OpsPb.table ++ GS.OpsConstr.table ++ GS.OpsCdcl.table ++ GS.OpsOptim.table ++ GS.OpsMaxSat.table ++ GS.OpsAmo.table ++ GS.OpsExplain.table ++ GS.OpsBfModel.table ++ GS.OpsChan.table ++ GS.OpsEnum.table ++ GS.OpsMaxSatSigned.table ++ GS.OpsBfUnique.table ++ GS.OpsFormats.table ++ GS.OpsSimplify.table ++ GS.OpsAnalyze.table
 end GS.OpsAll
